@@ -12,6 +12,23 @@ try:
     base2 = {(x['property'], x['seed']): x for x in json.load(open('/tmp/seed/triage_r2_baseline.json'))}
 except Exception:
     base2 = {}
+# round 3: detection by the checker as it stood when the seeds came in (log of the first triage pass, with tests)
+base3 = {}
+try:
+    for ln in open('/tmp/seed/triage_r3.log'):
+        if '/r3s' in ln:
+            k = ln.split()[0]
+            base3[(k.split('/')[0], k.split('/')[1])] = ' CAUGHT ' in ln
+except Exception:
+    pass
+# seeds that stopped being valid breaking changes after the round-3 repairs of /repo
+SUPERSEDED = {
+    "C01-s2": "edits the `_epsg` fast path of CRS.__eq__, which repair F26 removed: the patch no longer applies (patch.diff is the original, against 8fa727c)",
+    "C11-s1": "re-ordered footprint densification now calls segmented() with a zero step for a degenerate geobox, which the F31 guard rejects: stable test test_html_repr fails with the patch, so it no longer meets 'tests still pass'",
+    "C12-s2": "its breakage (candidate range from a box projected by its corners) was repaired by F33 (GeoBox.project densifies): the demo passes with the patch; still reported because the edit computes the range before the is_empty test (F36)",
+    "C12-r2s3": "it replaced the is_empty guard in grid_intersect; since F36 GeoboxTiles.tiles handles an empty query itself, the demo passes with the patch and the check is silent on it",
+    "C04-r3s2": "Tiles.crop early return through roi_is_full: after repair F30 (roi_is_full normalises) two stable tests fail with the patch, so it no longer meets 'tests still pass'",
+}
 verified_first_run = {"C02", "C04", "C06", "C07", "C14", "C15", "C16", "C18", "C19", "C20"}
 for r in sorted(t, key=lambda x: (x['property'], x.get('round', 1), x['seed'])):
     sid = f"{r['property']}-{r['seed']}"
@@ -20,6 +37,8 @@ for r in sorted(t, key=lambda x: (x['property'], x.get('round', 1), x['seed'])):
     for f in ("patch.diff", "demo.py"):
         if (src / f).exists():
             shutil.copy(src / f, d / f)
+    if (src / "patch.orig.diff").exists() and not (d / "patch_at_8fa727c.diff").exists():
+        shutil.copy(src / "patch.orig.diff", d / "patch_at_8fa727c.diff")  # as delivered by the sub-agent, before it was rebased onto the repaired tree
     if r['property'] == "C13" and Path("/tmp/seed/C13/seed_out/harness.py").exists():
         shutil.copy("/tmp/seed/C13/seed_out/harness.py", d / "harness.py")
     chk = subprocess.run(['git', '-C', '/repo', 'apply', '--check', str(d / 'patch.diff')], capture_output=True)
@@ -43,6 +62,10 @@ for r in sorted(t, key=lambda x: (x['property'], x.get('round', 1), x['seed'])):
         "detected_by": fl,
         "detected_by_own_property_check": r['property'] in fl,
     }
+    if sid in SUPERSEDED:
+        meta["superseded"] = SUPERSEDED[sid]
+    if (r['property'], r['seed']) in base3:
+        meta["detected_before_strengthening"] = {"checker_commit": "f6a1f1e..ad7b9b5 (state when round-3 seeds arrived)", "own_property_check": base3[(r['property'], r['seed'])]}
     b = base2.get((r['property'], r['seed']))
     if b is not None:
         # the checker as committed before this round's seeds were looked at (git 636bf70): the generalisation baseline
@@ -50,15 +73,18 @@ for r in sorted(t, key=lambda x: (x['property'], x.get('round', 1), x['seed'])):
     json.dump(meta, open(d / 'meta.json', 'w'), indent=1)
     rules = sorted({l.split('rule=')[1].split()[0] for ls in fl.values() for l in ls})
     rows.append((sid, r['property'] in fl, ",".join(sorted(fl)), ",".join(rules), (r['meta'].get('summary') or '')[:140].replace('|', '/').replace('\n', ' '),
-                 None if b is None else (r['property'] in b.get('flagged', {}))))
+                 (None if b is None else (r['property'] in b.get('flagged', {}))) if (r['property'], r['seed']) not in base3 else base3[(r['property'], r['seed'])],
+                 sid in SUPERSEDED))
 md = ["| seed | own check | before strengthening | reported by | rule(s) | change |", "|---|---|---|---|---|---|"]
-for sid, own, props, rules, summ, before in rows:
-    md.append(f"| {sid} | {'**yes**' if own else 'no'} | {'' if before is None else ('yes' if before else 'no')} | {props or '—'} | {rules or '—'} | {summ} |")
-caught = sum(1 for r in rows if r[1])
-r2 = [r for r in rows if r[5] is not None]
-summary = (f"**{caught} of {len(rows)}** seeded changes are reported (exit 1, VIOLATION naming the construct) by the check of the property they were "
-           f"written against; {sum(1 for r in rows if r[2])} by some check; {len(rows) - sum(1 for r in rows if r[2])} by none.  "
-           f"Of the {len(r2)} round-2 seeds, {sum(1 for r in r2 if r[5])} were reported by the checker as it stood before that round (column 'before strengthening').\n\n" + "\n".join(md))
+for sid, own, props, rules, summ, before, sup in rows:
+    md.append(f"| {sid}{' (superseded)' if sup else ''} | {'**yes**' if own else 'no'} | {'' if before is None else ('yes' if before else 'no')} | {props or '—'} | {rules or '—'} | {summ} |")
+live = [r for r in rows if not r[6]]
+caught = sum(1 for r in live if r[1])
+r2 = [r for r in live if r[5] is not None and '-r2' in r[0]]
+r3 = [r for r in live if '-r3' in r[0]]
+summary = (f"**{caught} of {len(live)}** live seeded changes (plus {len(rows) - len(live)} superseded by repairs of /repo, marked in the table) are reported (exit 1, VIOLATION naming the construct) by the check of the property they were "
+           f"written against; {sum(1 for r in live if r[2])} by some check; {len(live) - sum(1 for r in live if r[2])} by none.  "
+           f"Of the {len(r2)} live round-2 seeds, {sum(1 for r in r2 if r[5])} were reported by the checker as it stood before that round, of the {len(r3)} live round-3 seeds {sum(1 for r in r3 if r[5])} (column 'before strengthening').\n\n" + "\n".join(md))
 open(out / 'SUMMARY.md', 'w').write("# Seeded changes\n\n" + summary + "\n")
 dp = Path('/verif/DESIGN.md'); s = dp.read_text()
 if "SEEDED-TABLE-PLACEHOLDER" in s:
